@@ -771,6 +771,86 @@ theorem restartMem_ok {c : Cfg} {s : St} {h a : Nat} (hh : s.db.height = some h)
     simp only [if_true]
     refine ⟨trivial, fun _ => by omega, by omega⟩
 
+/-! ### the history-pruner migration -/
+
+theorem migrate_reads_ok {c : Cfg} {s : St} {h a : Nat} (I : InvA c s h a) (hjob : s.job = .idle) (keep : Nat)
+    (h0 : 0 < keep) (ha : a ≤ keep) (hk : keep ≤ h) : migrateReadsOk s.db keep h = true := by
+  unfold migrateReadsOk
+  rw [Bool.and_eq_true, List.all_eq_true]
+  refine ⟨?_, I.hdrKeep (keep - 1) (by omega) (by omega)⟩
+  intro j hj
+  have hj' := List.mem_range.mp hj
+  have hc : s.db.has .comm (keep + j) = true := (I.commIff _).mpr ⟨by omega, by omega⟩
+  have hh := (I.keepIn (keep + j) (by omega) (by omega) (by rw [hjob]; rfl)).2.2.2
+  simp [I.suEq, I.txsEq, hc, hh]
+
+/-- A completed migration with cut-off `keep` leaves exactly what a completed prune to `keep` leaves. -/
+theorem inv_migrate {c : Cfg} {s : St} {h a : Nat} (I : InvA c s h a) (hjob : s.job = .idle) (keep : Nat)
+    (h0 : 0 < keep) (ha : a ≤ keep) (hk : keep ≤ h) :
+    InvA c { db := migrateDb s.db keep h, mem := {}, job := .idle } h keep := by
+  have hidle : ∀ n, dirty c s.job n = false := by intro n; rw [hjob]; rfl
+  constructor
+  · exact I.hlt
+  · exact hk
+  · intro i n hn
+    cases i <;> simp only [migrateDb, Db.pruneAgg, Bool.and_eq_true, Bool.or_eq_true, decide_eq_true_eq] at hn
+    all_goals first
+      | exact I.bounded _ n hn.1
+      | omega
+  · intro n
+    show (s.db.has .comm n && !decide (n < keep)) = true ↔ _
+    simp only [Bool.and_eq_true, Bool.not_eq_true', decide_eq_false_iff_not]
+    have := I.commIff n
+    constructor
+    · rintro ⟨hc, hn⟩; have := this.mp hc; omega
+    · intro hn; exact ⟨this.mpr (by omega), by omega⟩
+  · intro n
+    show (s.db.has .su n && !decide (n < keep)) = (s.db.has .comm n && !decide (n < keep))
+    rw [I.suEq]
+  · intro n
+    show (s.db.has .txs n && !decide (n < keep)) = (s.db.has .comm n && !decide (n < keep))
+    rw [I.txsEq]
+  · intro n hn hkn
+    show (s.db.has .hdr n && !decide (n < headerEnd keep)) = true
+    have hh := I.hdrKeep n hn (by omega)
+    have : ¬ n < headerEnd keep := by rw [lt_headerEnd_iff]; unfold blockHashLag; omega
+    simp [hh, this]
+  · intro n hkn hn _
+    have hh := (I.keepIn n (by omega) hn (hidle n)).2.2.2
+    show ((decide (keep ≤ n) && decide (n ≤ h)) || decide (n + 1 = keep)) = true ∧
+      (decide (keep ≤ n) && decide (n ≤ h)) = true ∧ (decide (keep ≤ n) && decide (n ≤ h)) = true ∧
+      (s.db.has .hist n && (decide (keep ≤ n) && decide (n ≤ h))) = true
+    simp [hkn, hn, hh]
+  · intro b hb
+    have hb' : ((decide (keep ≤ b) && decide (b ≤ h)) || decide (b + 1 = keep)) = true := hb
+    show h2nOk c .idle keep b
+    simp only [h2nOk]
+    simp only [Bool.or_eq_true, Bool.and_eq_true, decide_eq_true_eq] at hb'
+    omega
+  · intro _ _
+    show ((decide (keep ≤ keep - 1) && decide (keep - 1 ≤ h)) || decide (keep - 1 + 1 = keep)) = true
+    have : keep - 1 + 1 = keep := by omega
+    simp [this]
+  · show jobOk c _ keep; unfold jobOk; trivial
+  · show (0 : Nat) ≤ h; omega
+  · intro hne; exact absurd rfl hne
+  · show (0 : UInt64).toNat ≤ _; simp
+  · intro hpos; exact absurd hpos (by show ¬ 0 < (0 : Nat); omega)
+  · intro w
+    show (s.db.agg w && !aggDeleted keep w) = true ↔ _
+    have h1' := I.aggIff w
+    have h2' := aggDeleted_iff keep w
+    cases hd : aggDeleted keep w with
+    | true =>
+      have := h2'.mp hd
+      simp only [Bool.not_true, Bool.and_false, Bool.false_eq_true, false_iff]
+      unfold numBlocksPerFilter at *; omega
+    | false =>
+      have : ¬ (w + 1) * numBlocksPerFilter ≤ keep := fun hc => by rw [h2'.mpr hc] at hd; cases hd
+      simp only [Bool.not_false, Bool.and_true]
+      rw [h1']
+      unfold numBlocksPerFilter at *; omega
+
 theorem step_store_mem (c : Cfg) (s : St) : (step c s .store).1.mem = s.mem := by
   simp only [step]
   cases s.db.height with
@@ -807,14 +887,16 @@ structure StepFacts (c : Cfg) (s : St) (op : Op) : Prop where
   /-- the durable floor never moves down -/
   loMono : lo s.db ≤ lo (step c s op).1.db
   /-- within one process the shared in-memory floor never moves down -/
-  fsMono : (∀ seed, op ≠ .crash seed) → s.mem.floorState.toNat ≤ (step c s op).1.mem.floorState.toNat
+  fsMono : ((∀ seed, op ≠ .crash seed) ∧ ∀ mf u, op ≠ .migrate mf u) →
+    s.mem.floorState.toNat ≤ (step c s op).1.mem.floorState.toNat
 
 theorem facts_some {c : Cfg} {s : St} {op : Op} {h a h' a' : Nat}
     (hh : s.db.height = some h) (IA : InvA c s h a)
     (hh' : (step c s op).1.db.height = some h') (IA' : InvA c (step c s op).1 h' a')
-    (h1 : a ≤ a') (h2 : a' ≤ max a s.mem.keepMax)
+    (h1 : a ≤ a') (h2 : a' ≤ max (max a s.mem.keepMax) (allowed c s op))
     (h3 : (step c s op).1.mem.keepMax ≤ max s.mem.keepMax (allowed c s op))
-    (h4 : (∀ seed, op ≠ .crash seed) → s.mem.floorState.toNat ≤ (step c s op).1.mem.floorState.toNat) :
+    (h4 : ((∀ seed, op ≠ .crash seed) ∧ ∀ mf u, op ≠ .migrate mf u) →
+      s.mem.floorState.toNat ≤ (step c s op).1.mem.floorState.toNat) :
     StepFacts c s op := by
   refine ⟨?_, ?_, ?_, h4⟩
   · unfold Inv; rw [hh']; exact ⟨a', IA'⟩
@@ -836,7 +918,8 @@ theorem step_facts {c : Cfg} {s : St} (op : Op) (I : Inv c s) (L : Legal c s op)
     -- steps that leave height, entries, job and the ghost alone
     have same : ∀ (s' : St), (step c s op).1 = s' → s'.db.height = none → s'.db.has = s.db.has →
         s'.db.agg = s.db.agg → s'.job = .idle → s'.mem.keepMax = 0 → s'.mem.floorState.toNat ≤ 1 →
-        ((∀ seed, op ≠ .crash seed) → s.mem.floorState.toNat ≤ s'.mem.floorState.toNat) → StepFacts c s op := by
+        (((∀ seed, op ≠ .crash seed) ∧ ∀ mf u, op ≠ .migrate mf u) →
+          s.mem.floorState.toNat ≤ s'.mem.floorState.toNat) → StepFacts c s op := by
       intro s' e0 e1 e2 e2' e3 e4 e5 e6
       refine ⟨?_, ?_, ?_, ?_⟩
       · rw [e0]; unfold Inv; rw [e1]; exact ⟨⟨by rw [e2]; exact he, by rw [e2']; exact hag⟩, e3, e4, e5⟩
@@ -861,7 +944,7 @@ theorem step_facts {c : Cfg} {s : St} (op : Op) (I : Inv c s) (L : Legal c s op)
     | finish => exact same s (by simp only [step, hj]) hh rfl rfl hj hk hf (fun _ => Nat.le_refl _)
     | fail => exact same s (by simp only [step, hj]) hh rfl rfl hj hk hf (fun _ => Nat.le_refl _)
     | crash seed =>
-      refine same ⟨s.db, restartMem s.db seed, .idle⟩ rfl hh rfl rfl rfl rfl ?_ (fun hne => absurd rfl (hne seed))
+      refine same ⟨s.db, restartMem s.db seed, .idle⟩ rfl hh rfl rfl rfl rfl ?_ (fun hne => absurd rfl (hne.1 seed))
       show (restartMem s.db seed).floorState.toNat ≤ 1
       unfold restartMem
       simp only [oldest_empty hh, Option.getD_none]
@@ -873,6 +956,15 @@ theorem step_facts {c : Cfg} {s : St} (op : Op) (I : Inv c s) (L : Legal c s op)
         simp at this ⊢; omega
     | sample v =>
       exact same ⟨s.db, { s.mem with sampled := v }, s.job⟩ rfl hh rfl rfl hj hk hf (fun _ => Nat.le_refl _)
+    | migrate mf u =>
+      refine same ⟨s.db, restartMem s.db true, s.job⟩ (by simp only [step, hj, hh]) hh rfl rfl hj rfl ?_
+        (fun hne => absurd rfl (hne.2 mf u))
+      show (restartMem s.db true).floorState.toNat ≤ 1
+      unfold restartMem
+      simp only [oldest_empty hh, Option.getD_none]
+      have := seedState_zero (UInt64.ofNat 0)
+      simp only [if_true]
+      simp at this ⊢; omega
   | some h =>
     rw [hh] at I
     simp only at I
@@ -880,7 +972,8 @@ theorem step_facts {c : Cfg} {s : St} (op : Op) (I : Inv c s) (L : Legal c s op)
     -- steps that keep head and durable floor
     have keepH : ∀ s' : St, (step c s op).1 = s' → s'.db.height = some h → InvA c s' h a →
         s'.mem.keepMax ≤ max s.mem.keepMax (allowed c s op) →
-        ((∀ seed, op ≠ .crash seed) → s.mem.floorState.toNat ≤ s'.mem.floorState.toNat) → StepFacts c s op := by
+        (((∀ seed, op ≠ .crash seed) ∧ ∀ mf u, op ≠ .migrate mf u) →
+          s.mem.floorState.toNat ≤ s'.mem.floorState.toNat) → StepFacts c s op := by
       intro s' e0 e1 e2 e3 e4
       exact facts_some hh IA (by rw [e0]; exact e1) (by rw [e0]; exact e2) (Nat.le_refl _) (by omega)
         (by rw [e0]; exact e3) (by rw [e0]; exact e4)
@@ -1029,12 +1122,62 @@ theorem step_facts {c : Cfg} {s : St} (op : Op) (I : Inv c s) (L : Legal c s op)
       | idle =>
         exact keepH ⟨s.db, restartMem s.db seed, .idle⟩ rfl hh
           (inv_leave_idle _ IA hjob (by omega) (fun hne => ⟨r2 hne, by omega⟩) (by omega) (by omega))
-          (by show (restartMem s.db seed).keepMax ≤ _; omega) (fun hne => absurd rfl (hne seed))
+          (by show (restartMem s.db seed).keepMax ≤ _; omega) (fun hne => absurd rfl (hne.1 seed))
       | run st en cu fi =>
         rw [hjob] at hI
         exact keepH ⟨s.db, restartMem s.db seed, .idle⟩ rfl hh
           (inv_leave _ IA hjob hI (by omega) (fun hne => ⟨r2 hne, by omega⟩) (by omega) (by omega))
-          (by show (restartMem s.db seed).keepMax ≤ _; omega) (fun hne => absurd rfl (hne seed))
+          (by show (restartMem s.db seed).keepMax ≤ _; omega) (fun hne => absurd rfl (hne.1 seed))
+
+    | migrate mf u =>
+      obtain ⟨hjob, hu, hL⟩ := L
+      have restartOnly : (step c s (.migrate mf u)).1 = ⟨s.db, restartMem s.db true, s.job⟩ → StepFacts c s (.migrate mf u) := by
+        intro e
+        obtain ⟨r1, r2, r3⟩ := restartMem_ok hh IA true
+        exact keepH _ e hh
+          (by rw [hjob]; exact inv_leave_idle _ IA hjob (by omega) (fun hne => ⟨r2 hne, by omega⟩) (by omega) (by omega))
+          (by show (restartMem s.db true).keepMax ≤ _; omega) (fun hne => absurd rfl (hne.2 mf u))
+      cases hl1 : s.db.l1 with
+      | none => exact unchanged (by simp only [step, hjob, hh, hl1])
+      | some l1 =>
+        cases hk : migKeep c h l1 mf with
+        | none => exact restartOnly (by simp only [step, hjob, hh, hl1, hk])
+        | some keep =>
+          obtain ⟨hpos, hfl⟩ := hL h l1 keep hh hl1 hk
+          have hb := migKeep_bound c h IA.hlt l1 mf keep hk
+          rw [lo_of_inv hh IA] at hfl
+          by_cases hz : keep = 0
+          · have hz' : keep.toNat = 0 := by rw [hz]; rfl
+            have hzn : c.migZeroNoop = true := by
+              rcases hpos with hp | hp
+              · omega
+              · exact hp
+            exact restartOnly (by simp only [step, hjob, hh, hl1, hk, hz, if_true, hzn])
+          · have hkpos : 0 < keep.toNat := by
+              have := (u64_ne_zero_iff keep).mp hz; omega
+            have hu' : (u && !c.migSkipsMissing) = false := by
+              cases u with
+              | false => rfl
+              | true => simp [hu rfl]
+            have hr := migrate_reads_ok IA hjob keep.toNat hkpos (by omega) (by omega)
+            have hstep : (step c s (.migrate mf u)).1 =
+                ⟨migrateDb s.db keep.toNat h, restartMem (migrateDb s.db keep.toNat h) true, .idle⟩ := by
+              simp only [step, hjob, hh, hl1, hk, hz, if_false, hu', Bool.false_eq_true, hr, if_true]
+            have I1 := inv_migrate IA hjob keep.toNat hkpos (by omega) (by omega)
+            have hh1 : (⟨migrateDb s.db keep.toNat h, ({} : Mem), Job.idle⟩ : St).db.height = some h := hh
+            have hrm : (restartMem (migrateDb s.db keep.toNat h) true).keepMax = 0 ∧
+                ((restartMem (migrateDb s.db keep.toNat h) true).floorState ≠ 0 →
+                  keep.toNat ≤ (restartMem (migrateDb s.db keep.toNat h) true).floorState.toNat) ∧
+                (restartMem (migrateDb s.db keep.toNat h) true).floorState.toNat ≤ max keep.toNat 1 :=
+              restartMem_ok hh1 I1 true
+            obtain ⟨r1, r2, r3⟩ := hrm
+            have hk0 : (({} : Mem)).keepMax = 0 := rfl
+            have I2 := inv_leave_idle (restartMem (migrateDb s.db keep.toNat h) true) I1 rfl (by omega)
+              (fun hne => ⟨r2 hne, by omega⟩) (by omega) (by omega)
+            exact facts_some hh IA (by rw [hstep]; exact hh) (by rw [hstep]; exact I2) (by omega)
+              (by simp only [allowed, hh, hl1]; omega)
+              (by rw [hstep]; show (restartMem _ true).keepMax ≤ _; omega)
+              (fun hne => absurd rfl (hne.2 mf u))
 
 theorem inv_step {c : Cfg} {s : St} (op : Op) (I : Inv c s) (L : Legal c s op) :
     Inv c (step c s op).1 := (step_facts op I L).inv
